@@ -23,3 +23,5 @@ class complex:
     def __str__(self) -> str: pass
 
     def __eq__(self, other: complex) -> bool:  pass
+
+    def __ne__(self, other: complex) -> bool:  pass
